@@ -103,7 +103,7 @@ def make_case(base_secs, variant, tmpdir):
 def base_chart(rng, headers):
     R = 192
     secs = [("Song", ["  Name = \"n\"", "  Resolution = %d" % R, "  Player2 = bass"]),
-            ("SyncTrack", ["  0 = TS 4", "  0 = B 120000", "  768 = B 90000", "  768 = TS 3 3"]),
+            ("SyncTrack", ["  0 = TS 4", "  0 = B 120000", "  0 = A 0", "  768 = B 90000", "  768 = A 3500000", "  768 = TS 3 3"]),
             ("Events", ['  0 = E "section a"', '  100 = E "lyric b"', '  200 = E "c"'])]
     for k, h in enumerate(headers):
         groups = ig.gen_groups(rng, R, rng.choice([0, 1, 3]) or 1)
